@@ -61,6 +61,8 @@ def run(ctx):
                                                                              "correspondence_divergences")}
     engine_check.scenario_run(ctx, "scen_engine.same_values_builder", [M.mon_c15, M.mon_c03], nontrivial, RULE, 16, 300, 5,
                               "equal_values_two_owners_part", seed_base=830000)
+    engine_check.scenario_run(ctx, "scen_engine.twin_builder", [M.mon_c15, M.mon_c03], nontrivial, RULE, 24, 400, 5,
+                              "twin_users_groups_names_part", seed_base=880000)
 
 
 def search(ctx, broken):
